@@ -270,7 +270,9 @@ func (i *In) parsePattern(
 		)
 
 	case nextT.IsTargetIdentifier("^"):
-		p.SetLastEvaluatedT(base.MakeUntyped())
+		// a pinned value matches the subject itself: '=> x' binds the subject
+		subjectT := caseTargetT
+		p.SetLastEvaluatedT(&subjectT)
 
 		nextT, err := p.Read()
 		if err != nil {
